@@ -64,3 +64,21 @@ def tier2(tier, rng):
     for (h, w) in [(1, 1), (1, 2), (2, 1)]:
         for g in L.sample(rng, L.all_grids(h, w, _cellvals(1)), 40 if tier == "thorough" else 8):
             yield {"h": h, "w": w, "grid": g}
+
+
+def big(tier, rng):
+    """long single-row / single-column boards with a two-digit arrow clue: no loop fits, so every free cell is black;
+    free cells and '??' cells alternate (black cells may not touch): exactly one solution"""
+    th = tier == "thorough"
+    for n in (L.LONG if th else L.sample(rng, L.LONG, 4) + [21]):
+        for p, d in ((0, ">"), (n - 1, "<"), (rng.randrange(n), rng.choice("<>"))):
+            row = [".."] * n
+            for q in range(n):
+                if q != p and abs(q - p) % 2 == 0:
+                    row[q] = "??"
+            cnt = sum(1 for q in range(n) if row[q] == ".." and q != p and ((q > p) if d == ">" else (q < p)))
+            row[p] = d + str(cnt)
+            black = [1 if (row[q] == "..") else 0 for q in range(n)]
+            yield {"h": 1, "w": n, "grid": [row], "planted": [[0] * (n - 1) + black], "n_solutions": 1}
+            col = [[{"<": "^", ">": "v"}.get(c[0], c[0]) + c[1:]] for c in row]
+            yield {"h": n, "w": 1, "grid": col, "planted": [[0] * (n - 1) + black], "n_solutions": 1}
